@@ -281,6 +281,13 @@ def run(tier='quick', repo=None):
     check_pair(rep, prog)
     check_dangle(rep, prog)
     check_core(rep, prog)
+    # the tail hint of segmented blocks never keeps pointing at freed segments
+    # (path rule shared with C03 R-cache-end: a dangling cached_end_ubuf is a use after free on the next append)
+    from rules import c03
+    sub = c03.run(tier=tier, repo=repo)
+    for o in sub.obs:
+        if o.rule == 'R-cache-end':
+            rep.add('R-core', 'block-tail-hint:' + o.instance, o.status, o.loc, **o.detail)
     rep.assumptions = [
         'ownership contract of the public API as frozen in coverage.tables.consumer_table (from doc/rules.mkdoc and header comments)',
         'functions without a body in the analysed units: core library API borrows; module APIs of other units make the verdict undecided',
